@@ -63,14 +63,13 @@ class GdbRunner:
         implsession.load_protocols()
         gdb.reset()
         wlmsg.Message.base_time = None
-        implenv.set_color(config[2])
+        disp, stop, col, unproc = implsession.startup(config)
+        implenv.set_color(col)
         self.clock = [0.0]
         plugin_mod.time_now = lambda: self.clock[0]
         extract_mod.time_now = lambda: self.clock[0]
         self.log = []
-        self.out = Output(False, bool(config[3]), implsession.Rec(self.log, 'out'), implsession.Rec(self.log, 'err'))
-        disp = matcher.always if config[0] is None else matcher.parse(config[0]).simplify()
-        stop = matcher.never if config[1] is None else matcher.parse(config[1]).simplify()
+        self.out = Output(False, unproc, implsession.Rec(self.log, 'out'), implsession.Rec(self.log, 'err'))
         self.cm = ConnectionManager()
         self.ctrl = Controller(self.out, self.cm, disp, stop)
         self.plugin = plugin_mod.Plugin(self.out, self.cm, self.ctrl, self.ctrl)
